@@ -11,8 +11,11 @@ def unit_tests(wt):
     rc, out = sh("CARGO_TARGET_DIR=%s/target cargo test --workspace --lib --offline 2>&1 | grep -E '^test result' " % wt, cwd=wt)
     passed = sum(int(x) for x in re.findall(r"(\d+) passed", out)); failed = sum(int(x) for x in re.findall(r"(\d+) failed", out))
     return passed, failed
-for mid in sys.argv[1:]:
-    wt = "/tmp/mut/%s" % mid; outd = "/tmp/mut/%s.out" % mid
+BASE, OFF = "/tmp/mut", 0
+args = sys.argv[1:]
+if args and args[0] == "--round2": BASE, OFF, args = "/tmp/mut2", 2, args[1:]     # second round: /tmp/mut2/<ID>, filed as <ID>-3 / <ID>-4
+for mid in args:
+    wt = "%s/%s" % (BASE, mid); outd = "%s/%s.out" % (BASE, mid)
     for n in (1, 2):
         mp = os.path.join(outd, "meta%d.json" % n)
         if not os.path.exists(mp): continue
@@ -32,12 +35,12 @@ for mid in sys.argv[1:]:
         sh("git checkout -- . ; rm -rf demo; git clean -fdq -e target", cwd=wt)
         ok = res["patch_applies"] and res["workspace_builds"] and res["unit_tests_passed_failed"] == (67, 0) and rc0 == 0 and rc1 != 0
         res["confirmed"] = ok
-        dst = "/verif/seeded/%s-%d" % (mid, n)
+        dst = "/verif/seeded/%s-%d" % (mid, n + OFF)
         shutil.rmtree(dst, ignore_errors=True); os.makedirs(dst)
         shutil.copy(patch, os.path.join(dst, "patch.diff"))
         demo = os.path.join(outd, "demo%d" % n)
         if os.path.isdir(demo): shutil.copytree(demo, os.path.join(dst, "demo"), ignore=shutil.ignore_patterns("target", "Cargo.lock"))
         meta["confirmation"] = res
         json.dump(meta, open(os.path.join(dst, "meta.json"), "w"), indent=1)
-        print(mid, n, "CONFIRMED" if ok else "NOT CONFIRMED", res["unit_tests_passed_failed"], rc0, rc1, flush=True)
+        print(mid, n + OFF, "CONFIRMED" if ok else "NOT CONFIRMED", res["unit_tests_passed_failed"], rc0, rc1, flush=True)
     shutil.rmtree(os.path.join(wt, "target"), ignore_errors=True)
